@@ -22,11 +22,29 @@ META = {
          "level_text": "Exploration with an exhaustive slot dimension: random setter sequences against a shadow (addr, flags) pair observed through the raw u64, and all 512 slots through every access path by pointer identity and little-endian byte position.",
          "level_note": PURE_NOTE},
 }
+PAGING_NOTE = ("Trusted: the ~400-line reference model (refmodel.rs), the SDM-style raw-memory walker (hwwalk.rs), the simulated physical memory "
+               "and its allocator (simphys.rs). Sampled histories, not all; page/frame universes and offsets as stated in the evidence rule.")
+META.update({
+ "C01": {"engine": "vx-paging", "design_ref": "DESIGN.md §6 C01", "technique": "reference-model monitor + independent hardware-style walk of raw table memory after every call of random histories; Miri/ASan/valgrind on the same workload",
+         "level_text": "Exploration: tens of thousands (quick) to millions (thorough) of mapper calls in random order-dependent histories, each followed by a full dump of the raw tables that is compared with the model (deciding every virtual address at once) and by probe-set agreement of translate/translate_addr/translate_page with the walker.",
+         "level_note": PAGING_NOTE},
+ "C02": {"engine": "vx-paging", "design_ref": "DESIGN.md §6 C02", "technique": "state-classifying reference model + post-error dump diff; allocator fault injection enumerating every failure point of every map call by state forking",
+         "level_text": "Fault enumeration: for every map call of every explored history that needs k new tables, all k allocator failure points are enumerated by forking the complete state (memory snapshot, model, allocator) - not sampled; the histories themselves are sampled.",
+         "level_note": PAGING_NOTE},
+ "C09": {"engine": "vx-paging", "design_ref": "DESIGN.md §6 C09", "technique": "byte-wise before/after diff of all simulated physical memory + allocator/deallocator/frame_to_pointer log monitors; Miri, ASan, valgrind memcheck passes",
+         "level_text": "Exploration: every call of the histories is bracketed by a snapshot and a byte diff of all frames and judged against the allocator log; memory-safety tools run the same workload with each frame a separate allocation.",
+         "level_note": PAGING_NOTE},
+ "C10": {"engine": "vx-paging", "design_ref": "DESIGN.md §6 C10", "technique": "clause-by-clause offline checker over the deallocator event log and raw dumps before/after each clean-up; idempotence re-run",
+         "level_text": "Exploration: thousands (quick) to a million (thorough) clean-ups on hierarchies produced by random histories, each judged clause by clause (not against a second implementation of the algorithm).",
+         "level_note": PAGING_NOTE},
+})
 NOT_APPLICABLE = {}
 ENGINES = [
  {"name": "vx-pure", "path": "harness/src/props/c03.rs..c08.rs, harness/src/gen.rs", "serves_properties": ["C03", "C04", "C05", "C06", "C07", "C08"],
   "kind_free_text": "boundary-biased generators + independent arithmetic oracles judging every call of the real crate functions, in overflow-checking and non-checking builds"},
 ]
+ENGINES.append({"name": "vx-paging", "path": "harness/src/props/paging.rs, harness/src/{simphys,hwwalk,refmodel}.rs", "serves_properties": ["C01", "C02", "C09", "C10"],
+  "kind_free_text": "real mapper code over simulated physical memory; reference model + raw-memory walker + byte diff + allocator log after every call; fault injection by state forking"})
 HOOK_COMMITS = []
 NOTES = ("Runtime monitoring and sanitizers. ./check <ID> rebuilds the harness crate (harness/, binary vx) against /repo's working tree in "
          "two profiles, runs sharded monitor processes, filters known findings (known_findings.json) and writes evidence/<ID>.json. "
